@@ -40,6 +40,7 @@ REQUIRED_REACH = [
     "probe:rle_zero_run_followed_by_records",
     "probe:long_rle_followed_by_rle",
     "probe:record_lands_at_start_of_image",
+    "probe:record_ends_at_top_of_image",
     "probe:patch_path_through_symlink_and_dotdot",
     "probe:one_directive_expanded_twice_with_different_deltas",
     "probe:delta_defined_on_the_command_line",
@@ -183,6 +184,16 @@ def gen_case(cseed: int, tier: str) -> dict[str, Any]:
     if low_first is not None:
         k = w.randrange(0, len(recs) + 1)
         recs = recs[:k] + [low_first] + recs[k:]
+    elif edge is None and w.random() < 0.1:
+        # a record that ends exactly at the top of the 24-bit image (last byte at 0xFFFFFF), or one byte
+        # below it: a perfectly valid place for a record to land
+        n1 = w.choice([1, 2, 16, 255, 0xFFFF])
+        end = (1 << 24) - w.choice([0, 0, 1])
+        off1 = end - n1 - delta
+        if 0 <= off1 < (1 << 24) and off1 != ipsref.EOF_OFFSET:
+            top_rec = (off1, "rle", (n1, w.randrange(1, 256)), 0) if w.random() < 0.4 else (off1, "plain", n1, w.getrandbits(32))
+            k = w.randrange(0, len(recs) + 1)
+            recs = recs[:k] + [top_rec] + recs[k:]
     slots = [s for s in progen.iter_slots(prog) if s["assembled"] and not (s["file"] == "main.s" and not s["path"] and s["pos"] == 0)]
     slot = w.choice(slots)
     dform = w.choice(["lit", "lit", "const", "const_reassigned", "const_signed", "macro_arg", "macro_arg", "define"])
@@ -407,6 +418,8 @@ def run_single(case: dict[str, Any], stats: Stats) -> list[Violation]:
         stats.bump("probe:long_rle_followed_by_rle")
     if any(0 <= r[0] + delta < 0x400 for r in recs):
         stats.bump("probe:record_lands_at_start_of_image")
+    if any(r[0] + delta + (r[2][0] if r[1] == "rle" else r[2]) == (1 << 24) for r in recs):
+        stats.bump("probe:record_ends_at_top_of_image")
     if case.get("via_writer"):
         stats.bump("probe:patch_from_a816_ipswriter")
     if case.get("second_delta") is not None:
@@ -448,11 +461,9 @@ def run_single(case: dict[str, Any], stats: Stats) -> list[Violation]:
         for rec in records:
             data = ipsref.record_bytes(rec)
             t = rec[0] + delta
-            # overlap with the host's own output -> order-dependent, no verdict
-            for probe in range(t, t + len(data), 1 if len(data) < 64 else max(1, len(data) // 64)):
-                if host_img.get(probe) is not None:
-                    return None
-            if len(data) and host_img.get(t + len(data) - 1) is not None:
+            # overlap with the host's own output -> order-dependent, no verdict (exact test: a sampled one
+            # let a 65281-byte run through that covered five host bytes - false alarm under VERIF_SEED=1)
+            if host_img.any_written(t, len(data)):
                 return None
             img.write(t, data)
         if case.get("second_delta") is not None:
@@ -471,7 +482,9 @@ def run_single(case: dict[str, Any], stats: Stats) -> list[Violation]:
         return out
     if klass == "well_formed":
         records = ipsref.parse(stored)
-        if any(r[0] + delta < 0 or r[0] + delta + len(ipsref.record_bytes(r)) > (1 << 24) for r in records):
+        hdr = 0x200 if front == "copier" else 0  # through the copier front end the records move up by the header
+        all_deltas = [delta] + ([case["second_delta"]] if case.get("second_delta") is not None else [])
+        if any(r[0] + d < 0 or r[0] + d + hdr + len(ipsref.record_bytes(r)) > (1 << 24) for r in records for d in all_deltas):
             # outside the image (can only come from a minimiser step or a generator slip): the statement says
             # nothing about such a record, and a front end may rightly refuse to write it
             stats.bump("no_verdict(record lands outside the 24-bit image)")
